@@ -63,8 +63,8 @@ def gen_case(ctx, cid, cls, **force):
     r = ctx.rng
     nsmode = force.get("nsmode") or r.choice(["none", "prefixed", "prefixed", "default"])
     size = force.get("size") or r.choice([3, 5, 8, 12, 20])
-    doc = sg.gen_doc(r, size, nsmode, xmlspace=force.get("xmlspace", False), exotic=force.get("exotic", True))
-    doc2 = sg.gen_doc(r, r.choice([2, 4, 6]), nsmode, xmlspace=False, exotic=False)
+    doc = sg.gen_doc(r, size, nsmode, xmlspace=force.get("xmlspace", r.random() < 0.3), exotic=force.get("exotic", True))
+    doc2 = sg.gen_doc(r, r.choice([2, 4, 6]), nsmode, xmlspace=r.random() < 0.3, exotic=False)
     main = force.get("main") or sg.gen_module(r, nsmode, 0, [0])
     main["name"] = "main.xsl"
     sg.assign_prefixes(main, r)
@@ -141,7 +141,7 @@ def gen_cases(ctx, count, prefix="c"):
         add("no-tokens", main=module([("decl", True, [])]))
     # Xerces DOM source (wrapped, whitespace flag computed by the wrapper)
     for _ in range(max(6, count // 12)):
-        add("xercesdom", opts="xercesdom", exotic=False)
+        add("xercesdom", opts="xercesdom")     # whitespace nodes written as CDATA sections / references included
     while len(cases) < count:
         add("random")
     return cases
@@ -197,11 +197,8 @@ def evaluate(ctx, cases, exe, model):
         wsn = ws_nodes(c["doc"])
         dropset = set(id(n) for n in drop)
         if xs_class:
-            # the class of K-C13-1: a declaration strips a whitespace node that xml:space="preserve" protects
-            ctx.count("xml-space-class")
-            if ra[0] == "ok" and rb[0] == "ok" and ra[1] != rb[1]:
-                known.append(("K-C13-1", c))
-            continue
+            # a declaration would strip a whitespace node that xml:space="preserve" protects (was K-C13-1)
+            ctx.count("xml-space-protects-a-node")
         kb = [sg.KNOWN_CLASS_BLOCKS[bn] for bn in c["blocks"] if bn in sg.KNOWN_CLASS_BLOCKS]
         if kb:
             ctx.count("known-class-block")
@@ -220,6 +217,12 @@ def evaluate(ctx, cases, exe, model):
             i = first_diff(ra[1], rb[1])
             orc.append({"case": c, "what": "outputs differ at byte %d: with declarations ...%r, without declarations on the stripped document ...%r"
                         % (i, ra[1][max(0, i - 60):i + 40], rb[1][max(0, i - 60):i + 40])})
+        if c.get("opts") == "xercesdom" and any(n.get("form") == "cdata" for n in wsn):
+            # in a wrapped (not coalesced) Xerces DOM a CDATA section is a CDATA_SECTION_NODE, which text() does not
+            # match whether stripped or not (a data-model matter outside this property): the per-node probe and the
+            # model comparison rest on text(), so only the A/B oracle above applies to these cases
+            ctx.count("xercesdom-with-cdata-whitespace")
+            continue
         # --- oracle 2: per text node, the library's decision (visible to text()) = the Recommendation's ------
         pr = parse_probe(rp[1].decode("utf-8", "replace"))
         seen = set(x for x in pr.get("D", "").split(",") if x)
@@ -412,7 +415,7 @@ def run(ctx):
     ctx.assumptions += [
         "the XML parser delivers the text between two markup items as one text node whose whitespace flag is 'all characters are #x20/#x9/#xA/#xD' (exercised with character references and CDATA sections, XalanSourceTree and the Xerces DOM wrapper)",
         "names are compared as (namespace URI, local name); the model's name ids are injective on the generated names",
-        "the Coq theorems cover the decision (tester list) and the observation language of StripDefs.v (self/child/descendant/sibling axes, node tests, positional predicates, string-value, copy, counts); keys, xsl:number, sorting, patterns, following/preceding and document() are covered by the A/B oracle only",
+        "the Coq theorems cover the decision (tester list, xml:space lookup) and the observation languages of StripDefs.v / StripZipDefs.v / StripObsDefs.v; match patterns with steps, sorting comparison, node-set union, document() and result tree fragments are covered by the A/B oracle only",
     ]
     ctx.notes["rule"] = ("distinct_nontrivial = distinct (declaration tree, per-whitespace-node decision vector) pairs in which at least one text node is stripped")
     ok_lib, liblog = core.build_lib("plain")
@@ -434,8 +437,8 @@ def run(ctx):
     run_malformed(ctx, exe)
     count = 2000 if not ctx.thorough else 40000
     cases = gen_cases(ctx, count)
-    # the class of K-C13-1 (xml:space="preserve" above a stripped node) is generated apart, and only counted
-    xs_cases = [gen_case(ctx, "x%d" % i, "xml-space", xmlspace=True, nblocks=2) for i in range(12 if not ctx.thorough else 200)]
+    # xml:space="preserve" / "default" nesting on every document of this stream (K-C13-1, repaired)
+    xs_cases = [gen_case(ctx, "x%d" % i, "xml-space", xmlspace=True, nblocks=2) for i in range(120 if not ctx.thorough else 2000)]
     # xsl:number level="any" with from patterns (K-C13-2, repaired in /repo): ordinary cases, and the model of the walk
     # (StripDefs.number_any, configuration read from the source) is compared with both sides
     xs_cases += [gen_case(ctx, "y%d" % i, "number-any-from", blocks=["number-any-from"], size=ctx.rng.choice([6, 10, 16])) for i in range(40 if not ctx.thorough else 400)]
